@@ -27,4 +27,5 @@ PROPERTY ReopenResolves
 PROPERTY CopyCopiesPartner
 PROPERTY EditIsLocal
 PROPERTY RefusedIsNoop
+PROPERTY ValidEditsAccepted
 CHECK_DEADLOCK FALSE
